@@ -353,6 +353,10 @@ func Run(req *fnv1.RunFunctionRequest) *fnv1.RunFunctionResponse {
 			} else {
 				rsp.Desired.Composite.ConnectionDetails[str(op["key"])] = []byte(str(op["value"]))
 			}
+		case "connDrop": // a later step takes a connection detail out of the desired XR again
+			if rsp.Desired.Composite != nil {
+				delete(rsp.Desired.Composite.ConnectionDetails, str(op["key"]))
+			}
 		case "require":
 			requireOp(req, rsp, xr, op)
 		}
